@@ -19,6 +19,7 @@ import GenjaxModel.Model.AdevProgIO
 import GenjaxModel.Model.AdevDet2IO
 import GenjaxModel.Model.SeedCacheIO
 import GenjaxModel.Model.VmapRuleIO
+import GenjaxModel.Model.InterpIO
 /-! Line-protocol driver: one S-expression per input line, one per output line. -/
 open Genjax
 
@@ -87,6 +88,9 @@ def dispatch (e : SExp) : SExp :=
   | some r => r
   | none =>
   match stepVmapRule e with
+  | some r => r
+  | none =>
+  match stepInterp e with
   | some r => r
   | none => .list [.atom "bad-op"]
 
